@@ -437,6 +437,14 @@ func (m *Machine) toIdx64(idx *smt.Term) *smt.Term {
 
 // boundsCheck forks: in-range continues, out-of-range panics.
 func (m *Machine) boundsCheck(idx *smt.Term, n int) {
+	if idx.Op == smt.OIte || idx.Op == smt.OZeroExt {
+		if mx, ok := m.iteLeafMax(idx); ok && mx < uint64(n) {
+			return
+		}
+		if idx.Op == smt.OZeroExt && idx.Args[0].S.W < 63 && (uint64(1)<<uint(idx.Args[0].S.W)) <= uint64(n) {
+			return // e.g. a byte indexing a 256-entry table
+		}
+	}
 	in := m.c.BvCmp(smt.OBvUlt, idx, m.c.BVConst(64, uint64(n)))
 	if !m.branch(in) {
 		panic(runtimeErr{fmt.Sprintf("index out of range [sym] with length %d", n)})
